@@ -143,10 +143,8 @@ CellById(id) == CHOOSE c \in CellsAll : c.id = id
 Rots_q == { <<AngZero, AngZero, AngZero>>, << <<4,3,5>>, <<5,-12,13>>, <<0,1,1>> >>,
             << <<0,-1,1>>, <<-7,24,25>>, <<3,-4,5>> >> }
 Rots_t == Rots_q \cup { << <<0,1,1>>, AngZero, AngZero >>, << <<0,1,1>>, <<0,1,1>>, <<-1,0,1>> >>,
-                        << AngZero, <<-1,0,1>>, AngZero >>, << <<12,5,13>>, <<4,3,5>>, <<24,7,25>> >>,
-                        << <<-7,24,25>>, <<0,-1,1>>, <<12,5,13>> >>, << <<3,-4,5>>, <<3,-4,5>>, <<3,-4,5>> >>,
-                        << AngZero, AngZero, <<5,-12,13>> >>, << <<24,7,25>>, AngZero, <<0,1,1>> >>,
-                        << <<-1,0,1>>, <<5,-12,13>>, <<4,3,5>> >> }
+                        << <<12,5,13>>, <<4,3,5>>, <<24,7,25>> >>, << <<-7,24,25>>, <<0,-1,1>>, <<12,5,13>> >>,
+                        << AngZero, AngZero, <<5,-12,13>> >>, << <<-1,0,1>>, <<5,-12,13>>, <<4,3,5>> >> }
 RotNum(t) == M2T(MM(MM(Rx(t[1]), Ry(t[2])), Rz(t[3])))
 RotDen(t) == t[1][3] * t[2][3] * t[3][3]
 \* (det = +den^3 does not fit 32 bits for three Pythagorean angles: the harness checks it)
